@@ -277,3 +277,18 @@ Theorem C03_overlapping_roots_duplicate :
          last (en_chunks e) ([], []) = (CH_PRNT, prnt_payload 4 [3%Z; 1%Z; 2%Z; 3%Z] [2%Z; 2%Z; (-1)%Z; 2%Z]).
 Proof. exact overlapping_roots_duplicate. Qed.
 
+
+(* ==== the magic numbers, footer and chunk names of the serializer/reader models are the ones regenerated from the source
+   (Gen/SourceTables.v <- core.rs, chunk.rs, serializer/state.rs, deserializer/mod.rs) *)
+From RbxVerif Require Import SourceTablesFacts.
+From RbxVerif Require SourceTables.
+Theorem C03_bin_constants_match_source :
+  BinFile.FILE_MAGIC_HEADER = SourceTables.src_FILE_MAGIC_HEADER /\
+  BinFile.FILE_SIGNATURE = SourceTables.src_FILE_SIGNATURE /\
+  BinFile.FILE_FOOTER = SourceTables.src_FILE_FOOTER /\
+  SourceTables.src_FILE_VERSION = 0 /\
+  SourceTables.src_chunk_names_writer = [BinFile.CH_SSTR; BinFile.CH_INST; BinFile.CH_PROP; BinFile.CH_PRNT; BinFile.CH_END] /\
+  SourceTables.src_chunk_names_reader = [BinFile.CH_META; BinFile.CH_SSTR; BinFile.CH_INST; BinFile.CH_PROP; BinFile.CH_PRNT; BinFile.CH_END].
+Proof. exact bin_constants_match_source. Qed.
+Theorem C03_rotation_table_matches_source : resolve_rotations = Some Rotation.rotation_table.
+Proof. exact rotation_table_matches_source. Qed.
